@@ -106,11 +106,46 @@ def main():
         except Exception as e:
             rec['raised'] = type(e).__name__ + ': ' + str(e)[:100]
         out['trees'].append(rec)
+    def enc_type(t):
+        """the structure of a pedal type object (class names and element types) for the Coq model"""
+        name = type(t).__name__
+        if name in ('ListType', 'SetType', 'FrozenSetType'):
+            return [name, enc_type(t.element_type)]
+        if name == 'TupleType':
+            return [name, [enc_type(e) for e in t.element_types]]
+        if name == 'DictType':
+            return [name, [[enc_type(k), enc_type(x)] for k, x in t.element_types]]
+        return [name]
+
+    def enc_value(v):
+        """the value as the model sees it: kinds only, set elements in iteration order"""
+        if isinstance(v, bool):
+            return ['bool']
+        if isinstance(v, int):
+            return ['int']
+        if isinstance(v, float):
+            return ['float']
+        if isinstance(v, str):
+            return ['str']
+        if v is None:
+            return ['none']
+        if isinstance(v, list):
+            return ['list', [enc_value(x) for x in v]]
+        if isinstance(v, tuple):
+            return ['tuple', [enc_value(x) for x in v]]
+        if isinstance(v, set):
+            return ['set', [enc_value(x) for x in v]]
+        if isinstance(v, dict):
+            return ['dict', [[enc_value(k), enc_value(x)] for k, x in v.items()]]
+        return ['other']
     for vsrc in data['values']:
         v = eval(vsrc)
         rec = {'src': vsrc}
         try:
             t = get_pedal_type_from_value(v)
+            rec['value_enc'] = enc_value(v)
+            rec['type_enc'] = enc_type(t)
+            rec['norm_enc'] = enc_type(normalize_type(type(v)).as_type())
             rec['reflexive'] = [bool(is_subtype(t, t)) for _ in range(3)]
             t2 = get_pedal_type_from_value(v)
             rec['stable'] = bool(is_subtype(t, t2)) and bool(is_subtype(t2, t)) and bool(is_subtype(t, t2))
@@ -120,6 +155,17 @@ def main():
         except Exception as e:
             rec['raised'] = type(e).__name__ + ': ' + str(e)[:100]
         out['values'].append(rec)
+    # is_subtype between the types of different values (for the model of the relation)
+    pairs = []
+    vals = [eval(x) for x in data['values'][:40]]
+    types = [get_pedal_type_from_value(v) for v in vals]
+    for i, a in enumerate(types):
+        for j, b in enumerate(types):
+            try:
+                pairs.append([i, j, bool(is_subtype(get_pedal_type_from_value(vals[i]), get_pedal_type_from_value(vals[j])))])
+            except Exception as e:
+                pairs.append([i, j, 'raise'])
+    out['subtype_pairs'] = pairs
     json.dump(out, open(sys.argv[1], 'w'))
 
 
